@@ -21,7 +21,7 @@ func init() {
 			"concurrent phase: the order 'probe entered before the cached answer returned' is taken from the monotonic clock; races are those the race detector sees on the executed schedules",
 		},
 		Stages: []Stage{
-			{Name: "histories", Pkg: "./pkg/station/liveness", Run: "^TestVerifC18(Exhaustive|Random)$", Drivers: []string{"liveness"}, TimeoutQ: 10 * time.Minute, TimeoutT: 40 * time.Minute},
+			{Name: "histories", Pkg: "./pkg/station/liveness", Run: "^TestVerifC18(Exhaustive|Outcomes|Boundary|Random)$", Drivers: []string{"liveness"}, TimeoutQ: 10 * time.Minute, TimeoutT: 40 * time.Minute},
 			{Name: "concurrent", Pkg: "./pkg/station/liveness", Run: "^TestVerifC18Concurrent$", Race: true, Drivers: []string{"liveness"}, TimeoutQ: 10 * time.Minute, TimeoutT: 40 * time.Minute},
 		},
 	})
